@@ -208,6 +208,13 @@ Proof.
     + (* EIndex *) destruct idx as [i|]; nf_go IH Hd.
     + (* EBin *)
       destruct o; apply cross_nf; try (intros; sub IH Hd); try (intros; apply no_short_nf); try apply nf_calcs.
+    + (* EWithEntries *)
+      apply each_nf. intros c0 st0. apply nf_bind; [apply nf_deref|]. intros n.
+      apply nf_bind; [unfold to_entries_items; destruct n as [[] ?| |]; nf_pure|]. intros [items|]; [|apply nf_ok].
+      destruct (alloc_repl st0 c0 (Seq items)) as [ep st1].
+      apply nf_bind; [apply each_nf; intros; sub IH Hd|]. intros o.
+      apply nf_bind; [apply nf_collect_items|]. intros coll. apply nf_bind; [apply nf_entries_of_items|]. intros es.
+      destruct (dup_keys es); [apply nf_unsup | unfold one; apply nf_ok].
     + (* EAssign *)
       apply nf_bind; [sub IH Hd|]. intros o0. apply nf_bind; [|intros; apply nf_ok].
       apply cross_nf; try (intros; sub IH Hd); [intros; apply no_short_nf | apply nf_assign_calc].
